@@ -394,7 +394,75 @@ pub fn nonce_check(a: &Args) -> Report {
     }
     rep.nontrivial(format!("nonce:{i}"));
   }
-  rep.sample(json!({"proofs": n, "repeated_identical_requests": n / 3}));
+  // copies of the server — clones taken before and after it has issued proofs, a clone of a clone,
+  // an instance restored from exported key state, a clone working on another thread — hold the same
+  // key: a commitment repeated ACROSS copies exposes it just the same.  The copies answer in lockstep
+  // (the k-th proof of each copy after the copying point), each a different request.
+  let fresh = Server::new(vec![3, 4]).unwrap();
+  let early = fresh.clone();
+  let mut copies: Vec<(String, Server)> = vec![("original".into(), fresh), ("clone-before-first-proof".into(), early)];
+  for k in 0..3u64 {
+    let _ = copies[0].1.eval(&Client::blind(&k.to_le_bytes()).0, 3, true);
+  }
+  let late = copies[0].1.clone();
+  let late2 = late.clone();
+  copies.push(("clone-after-three-proofs".into(), late));
+  copies.push(("clone-of-clone".into(), late2));
+  {
+    let st = copies[0].1.get_private_key();
+    if let Ok(bytes) = bincode::serialize(&st) {
+      if let Ok(state) = bincode::deserialize::<ppoprf::ppoprf::ServerKeyState>(&bytes) {
+        let mut other = Server::new(vec![3, 4]).unwrap();
+        other.set_private_key(state);
+        copies.push(("restored-from-export".into(), other));
+      }
+    }
+  }
+  let pkb2 = copies[0].1.get_public_key().serialize_to_bincode().unwrap();
+  let base2 = pt(&pkb2[..32]);
+  let mut mdpk2: HashMap<u8, curve25519_dalek::ristretto::RistrettoPoint> = HashMap::new();
+  for i in 0..2 {
+    let o = 40 + 33 * i;
+    if let Some(p) = pt(&pkb2[o + 1..o + 33]) {
+      mdpk2.insert(pkb2[o], p);
+    }
+  }
+  let commitment = |ev: &Evaluation, md: u8| -> Option<[u8; 32]> {
+    let pb = proof_bytes(ev);
+    let c = Option::<Scalar>::from(Scalar::from_canonical_bytes(pb[..32].try_into().ok()?))?;
+    let s = Option::<Scalar>::from(Scalar::from_canonical_bytes(pb[32..64].try_into().ok()?))?;
+    let pkv = base2? + mdpk2.get(&md)?;
+    Some((s * RISTRETTO_BASEPOINT_POINT + c * pkv).compress().to_bytes())
+  };
+  let mut seen2: HashMap<[u8; 32], String> = HashMap::new();
+  for step in 0..(n / 4).max(6) {
+    // one copy answers on another thread at every step
+    let th_copy = copies[1].1.clone();
+    let th_req = Client::blind(format!("thread {step}").as_bytes()).0;
+    let th = std::thread::spawn(move || th_copy.eval(&th_req, 3, true).ok());
+    let mut evs: Vec<(String, Evaluation)> = Vec::new();
+    for (ci, (name, srv)) in copies.iter().enumerate() {
+      let req = Client::blind(format!("copy {ci} step {step}").as_bytes()).0;
+      if let Ok(ev) = srv.eval(&req, 3, true) {
+        evs.push((format!("{name}#{step}"), ev));
+      }
+    }
+    if let Ok(Some(ev)) = th.join() {
+      evs.push((format!("fresh-clone-on-thread#{step}"), ev));
+    }
+    for (who, ev) in evs {
+      rep.evaluations += 1;
+      if let Some(t2) = commitment(&ev, 3) {
+        if let Some(prev) = seen2.insert(t2, who.clone()) {
+          rep.violation("C13", "ProofDLEQ::new_batch", "commitment-reused-across-copies",
+            format!("the proofs {prev} and {who} (different requests) carry the same commitment: copies of a server replay the nonce and expose the key"),
+            json!({"proofs": [prev, who]}));
+        }
+        rep.nontrivial(format!("nonce-copy:{who}"));
+      }
+    }
+  }
+  rep.sample(json!({"proofs": n, "repeated_identical_requests": n / 3, "server_copies": copies.len() + 1}));
   rep.traces = 1;
   rep
 }
